@@ -124,7 +124,7 @@ static std::string strfu(const std::string& s) {  // documented: leading blanks 
   return r;
 }
 
-struct ProgEvent { int future; std::string title; int month, day, hour, min, lh, lm; long n; /* number of the byte pair that raised it */ };
+struct ProgEvent { int future; std::string title; int month, day, hour, min, lh, lm, eh, em, es; long n; /* number of the byte pair that raised it */ };
 struct NetEvent { std::string name, call; long n; /* number of the byte pair that raised it */ bool id_only; /* NETWORK_ID rather than NETWORK */ };
 
 struct C09 : World {
@@ -329,7 +329,7 @@ struct C09 : World {
     if (ev->type == VBI_EVENT_PROG_INFO) {
       vbi_program_info* pi = ev->ev.prog_info;
       ProgEvent e; e.future = pi->future; e.title = (const char*)pi->title;
-      e.month = pi->month; e.day = pi->day; e.hour = pi->hour; e.min = pi->min; e.lh = pi->length_hour; e.lm = pi->length_min;
+      e.month = pi->month; e.day = pi->day; e.hour = pi->hour; e.min = pi->min; e.lh = pi->length_hour; e.lm = pi->length_min; e.eh = pi->elapsed_hour; e.em = pi->elapsed_min; e.es = pi->elapsed_sec;
       e.n = g->ref.n;
       g->prog_events.push_back(e);
       g->ctx->log("ev PROG_INFO future=%d title='%s' pin=%d/%d %d:%d len=%d:%d", e.future, e.title.c_str(), e.month, e.day, e.hour, e.min, e.lh, e.lm);
@@ -400,6 +400,27 @@ struct C09 : World {
         for (auto& d : it->second)
           if (d.bytes.size() >= 2 && (d.bytes[1] & 63) == e.lh && (d.bytes[0] & 63) == e.lm) ok = true;
       if (!ok) g->ctx->fail("oracle:xds-length", "PROG_INFO length %d:%d was never transmitted in a valid packet", e.lh, e.lm);
+      // "equals the decoded content of the delivered packets": length and elapsed time are ONE packet (EIA-608 program
+      // length: length min/hour, optionally elapsed min/hour, optionally elapsed seconds), so the announced record must be
+      // the decoding of one delivered packet - the most recent one the decoder can have used (packets with minutes or seconds
+      // above 59 are documented nowhere; the decoder drops them, the model passes over them), or of an undetermined one
+      // after it.  "If unknown all these fields are -1": a packet without elapsed time makes the elapsed time unknown again.
+      // Seconds are compared only when the packet carries them (without: 0 or -1, the documentation and the code differ).
+      if (ok && it != g->hist.end()) {
+        bool match = false, any = false;
+        for (size_t i = it->second.size(); i-- > 0 && !match;) {
+          const Delivery& d = it->second[i];
+          const std::string& b = d.bytes;
+          if (b.size() < 2 || b.size() > 6) continue;
+          int lm = b[0] & 63, lh = b[1] & 63, em = b.size() >= 3 ? (b[2] & 63) : -1, eh = b.size() >= 4 ? (b[3] & 63) : -1, es = b.size() >= 5 ? (b[4] & 63) : 0;
+          if (lm > 59 || em > 59 || es > 59) continue;
+          any = true;
+          match = lh == e.lh && lm == e.lm && em == e.em && (b.size() == 3 || eh == e.eh) && (b.size() < 5 || es == e.es);
+          if (!d.maybe) break;
+        }
+        if (any && !match)
+          g->ctx->fail("oracle:xds-length-record", "PROG_INFO length %d:%d elapsed %d:%d:%d is not the decoding of the most recent program length packet delivered", e.lh, e.lm, e.eh, e.em, e.es);
+      }
     }
   }
   static void check_net_event(const NetEvent& e) {
@@ -592,7 +613,7 @@ struct C09 : World {
     if (!((__builtin_popcount(b0 & 0xFF) & 1) && (__builtin_popcount(b1 & 0xFF) & 1))) announce_disturb();
     for (size_t i = ref_before; i < s.ref.out.size(); i++) {
       const Delivery& d = s.ref.out[i];
-      if (decoder_knows(d.cls, d.type)) s.hist[d.cls * 256 + d.type].push_back(d);
+      if (decoder_knows(d.cls, d.type)) { s.hist[d.cls * 256 + d.type].push_back(d); if (d.start_n <= s.disturb_n) s.hist[d.cls * 256 + d.type].back().maybe = true; }  // in flight during a disturbance: the decoder may have dropped it
       announce_update(d);
     }
     uint8_t buf[2] = {(uint8_t)b0, (uint8_t)b1};
